@@ -1,7 +1,7 @@
 """Rules added after confronting the checker with independently written bug patches (DESIGN §8.3)."""
 import re
 
-from core import op_local, op_const_bits, place_fields, strip_crate, alias_paths, place_path, mem_loc, rvalue_operands, ok_bool_edges, result_edges
+from core import op_local, op_const_bits, place_fields, strip_crate, alias_paths, place_path, mem_loc, rvalue_operands, ok_bool_edges, result_edges, rvalue_places
 from engine import rule
 from flow import flow_of
 from vocab import api_mut, open_bodies, where
@@ -38,7 +38,7 @@ def _with_read_helpers_in_place(ctx, b):
     return ctx.f.inlined(b, pred, 'nb')
 
 
-@rule('NB1', ['C01', 'C02', 'C07'], floor=4, template='guard-dominates-use')
+@rule('NB1', ['C01', 'C02', 'C07', 'C12'], floor=4, template='guard-dominates-use')
 def nb1(ctx):
     """The rolling reader moves (file, file number, block id) only after a block was read successfully."""
     bs = [b for b in ctx.f.bodies.values() if b.path.startswith('<' + RR + ' as block_read_write::BlockRead>::next_block') or b.name.startswith('<' + RR + ' as block_read_write::BlockRead>::next_block')]
@@ -200,7 +200,7 @@ def gc12(ctx):
         ctx.missing('mint', 'no FileNumber::new call in FileTracker methods')
 
 
-@rule('RP3', ['C01', 'C09'], floor=1, template='guard-polarity')
+@rule('RP3', ['C01', 'C09', 'C02'], floor=1, template='guard-polarity')
 def rp3(ctx):
     """Replay of an append re-aligns the queue only when the queue is unknown."""
     from rules_open import replay_sites
@@ -638,6 +638,36 @@ def rp5(ctx):
                       'replaying a position record can skip the re-alignment of the queue (e.g. when the queue is already known): a stale queue left by a lost DeleteQueue / Truncate entry would survive and make later entries fail')
     if n == 0:
         ctx.missing('realign', 'no re-alignment call in the RecordPosition replay arm')
+    # ... and the same for the two other single-operation entries: a Truncate / DeleteQueue entry is in the log because
+    # the live call DID it; replay that applies it only under a condition of its own (a "stale entry" guard comparing
+    # positions, say) rebuilds a state the live log never had. The only skip that changes nothing is "the queue is not
+    # known" (the operation would have been a no-op): the false edge of a MemQueues predicate is let through.
+    for arm in ('Truncate', 'DeleteQueue'):
+        if arm not in arms:
+            continue
+        (edge, region) = arms[arm]
+        muts = []
+        for (host, cs, _res) in expand_arm_sites(ctx, b, region):
+            if cs.node is None:
+                continue
+            cb = ctx.f.bodies[cs.node]
+            if cb.path.startswith('mem::queues::MemQueues::') and cb.arg_count >= 2 and cb.local_ty(1).startswith('&mut '):
+                muts.append((host, cs))
+        if not muts:
+            continue        # LOG2 reports an arm without its operation
+        absent = [fe for (_bi, _c, _te, fe, c_) in b.switches_on_call(lambda c: c.path.startswith('mem::queues::MemQueues::') and c.node in ctx.f.bodies
+                                                                     and ctx.f.bodies[c.node].ret_ty == 'bool' and ctx.f.bodies[c.node].local_ty(1).startswith('&mem::'))]
+        here = [cs.point for (host, cs) in muts if host is b]
+        via = [cs for cs in b.calls if cs.point in region and cs.node is not None and any(host is ctx.f.bodies[cs.node] for (host, _c) in muts)]
+        r_ = b.reach([edge[1]], avoid=here + [c.point for c in via], avoid_edges=absent)
+        skipped = cs0.point in r_ or any(e['point'] in r_ and e['kind'] in ('ok',) for e in b.exits())
+        for (host, cs) in muts:
+            if host is not b:
+                exits = [e['point'] for e in host.ok_exits()] or host.return_points()
+                skipped = skipped or any(e in host.reach([host.entry], avoid=[c.point for (h2, c) in muts if h2 is host]) for e in exits)
+        ctx.check(not skipped, '%s-arm:always-applies' % arm, where(b, edge[1]), 'every path through the %s arm applies the operation (or skips it only for an unknown queue)' % arm,
+                  'replaying a %s entry can skip the operation for a queue that exists (a guard of its own on the replay side): the entry is in the log because the live call did it, the recovered state would differ from the live one' % arm,
+                  detail={'path': b.witness(edge[1], cs0.point, avoid=here + [c.point for c in via], avoid_edges=absent)} if skipped and cs0.point in r_ else None)
 
 
 @rule('MQ1', ['C01', 'C04', 'C18'], floor=2, template='provenance')
@@ -710,6 +740,75 @@ def mq1(ctx):
                       'a MemQueue that was not built on the spot is inserted into the queue map (recycled / moved from elsewhere): it can carry the start position, handles or records of another incarnation')
     if n == 0:
         ctx.missing('inserts', 'no insertion into the queue map found')
+
+
+@rule('MQ3', ['C01', 'C04'], floor=1, template='provenance')
+def mq3(ctx):
+    """A queue rebuilt for a recorded position stands AT that position: every integer field of MemQueue that
+    `next_position()` can answer from (today: `start_position`, the records being empty) is initialised from the
+    parameter of `with_next_position` -- not left at its default, not derived from anything else. A second field
+    caching the next position that the replay-only constructor forgets is invisible to every test that does not
+    restart after the files holding the queue's history were reclaimed; the queue then restarts at 0."""
+    MQ = 'mem::queue::MemQueue'
+    nb = ctx.fn('mem::queue::MemQueue::next_position')
+    wb = ctx.fn('mem::queue::MemQueue::with_next_position')
+    if not nb or not wb or MQ not in ctx.f.adts:
+        ctx.missing('anchors', 'MemQueue::next_position / MemQueue::with_next_position not found')
+        return
+    nb, wb = nb[0], wb[0]
+    fields = ctx.f.adts[MQ]['variants'][0]['fields']
+    ints = {f['name']: i for (i, f) in enumerate(fields) if f['ty'] in ('u64', 'usize', 'u32', 'i64')}
+    # integer fields of the queue that next_position() reads (directly or through a crate-local helper one level down)
+    def int_reads(b, depth=0):
+        out = set()
+        for bi, blk in enumerate(b.blocks):
+            if not b.live[bi]:
+                continue
+            for st in blk['stmts']:
+                if st['k'] != 'assign':
+                    continue
+                for pl in rvalue_places(st['rv']):
+                    m = mem_loc(pl)
+                    if m and m.startswith('MemQueue.') and m.split('.', 1)[1] in ints:
+                        out.add(m.split('.', 1)[1])
+        if depth < 1:
+            for cs in b.calls:
+                if cs.node in ctx.f.bodies and cs.path.startswith('mem::queue::MemQueue::'):
+                    out |= int_reads(ctx.f.bodies[cs.node], depth + 1)
+        return out
+    rd = int_reads(nb)
+    if not rd:
+        ctx.missing('reads', 'next_position() reads no integer field of MemQueue')
+        return
+    # what with_next_position puts into those fields
+    aggs = [(b_.pstart[bi] + si, st['rv']) for b_ in [wb] for bi, blk in enumerate(b_.blocks) if b_.live[bi] for si, st in enumerate(blk['stmts'])
+            if st['k'] == 'assign' and st['rv']['k'] == 'agg' and strip_crate(st['rv'].get('adt') or '') == MQ]
+    for fname in sorted(rd):
+        vals = []
+        for (p, rv) in aggs:
+            if ints[fname] < len(rv['ops']):
+                vals.append((p, rv['ops'][ints[fname]]))
+        for bi, blk in enumerate(wb.blocks):
+            if not wb.live[bi]:
+                continue
+            for si, st in enumerate(blk['stmts']):
+                if st['k'] != 'assign' or st['rv']['k'] != 'use':
+                    continue
+                pl = st['place']
+                if pl['p'] and pl['p'][-1]['k'] == 'field' and (pl['p'][-1].get('name') == fname or (pl['p'][-1].get('name') is None and pl['p'][-1].get('i') == ints[fname])) \
+                        and 'MemQueue' in (pl['p'][-1].get('adt') or wb.local_ty(pl['l'])):
+                    vals = [(wb.pstart[bi] + si, st['rv']['op'])]          # a later store overrides what the aggregate / default put there
+        if not vals:
+            ctx.check(False, 'rebuilt-at-position:%s' % fname, wb.span, '', 'with_next_position never initialises MemQueue.%s, which next_position() answers from: a queue rebuilt from a position record would not stand at that position' % fname)
+            continue
+        for (p, op) in vals:
+            af = wb.affine(op)
+            if af is None:
+                continue        # not an expression this evaluator reads: no verdict on this field
+            good = af[1] == 0 and list(af[0].items()) == [(('param', 1), 1)]
+            ctx.check(good, 'rebuilt-at-position:%s' % fname, where(wb, p), 'MemQueue.%s := the position parameter' % fname,
+                      'with_next_position leaves MemQueue.%s (read by next_position()) at %s instead of the requested position: after a restart a queue whose history was reclaimed would restart from the wrong position' %
+                      (fname, ' + '.join([str(k_[-1]) for k_ in sorted(af[0], key=str)] + ([str(af[1])] if af[1] or not af[0] else []))))
 
 
 @rule('RP6', ['C01', 'C18', 'C02'], floor=3, template='no-reach')
